@@ -26,6 +26,14 @@ impl<T: CancelIo> CancelImpl<T> {
     }
 }
 
+/// contract of `CancelImpl::cancel` for callers that only need "the target is now cancelled": the cancel bit is set
+/// (what the function does first); waking the target is C02.9 / C17.2b / C09's business
+pub(crate) static mut CANCEL_CALLS: usize = 0;
+pub(crate) unsafe fn cancel_contract_sets_bit<T: CancelIo>(this: &CancelImpl<T>) {
+    CANCEL_CALLS += 1;
+    this.vk_set_cancel_bit();
+}
+
 static mut PANICKING_NOW: bool = false;
 fn panicking_stub() -> bool {
     unsafe { PANICKING_NOW }
